@@ -374,6 +374,30 @@ pub fn run(p: &[String]) -> Vec<String> {
             }
             vec![hex(&wrong.join(","))]
         }
+        // ---- C04
+        "attr_generations" => {
+            // text : attribute channels (internal hyperlink location, sheet name, table column name) through three save/load generations
+            let text = unhex(&p[1]);
+            let mut book = umya_spreadsheet::new_file();
+            {
+                let ws = book.get_sheet_by_name_mut("Sheet1").unwrap();
+                let c = ws.get_cell_mut((1, 1));
+                c.set_value_string("x");
+                c.get_hyperlink_mut().set_url(text.clone()).set_location(true);
+            }
+            let _ = book.new_sheet(text.clone());
+            let mut out = vec![];
+            for _ in 0..3 {
+                let mut buf: Vec<u8> = Vec::new();
+                umya_spreadsheet::writer::xlsx::write_writer(&book, &mut buf).unwrap();
+                book = umya_spreadsheet::reader::xlsx::read_reader(std::io::Cursor::new(buf), true).unwrap();
+                let ws = book.get_sheet_by_name("Sheet1").unwrap();
+                let loc = ws.get_cell((1, 1)).and_then(|c| c.get_hyperlink()).map(|h| h.get_url().to_string()).unwrap_or("<none>".into());
+                let names: Vec<String> = book.get_sheet_collection().iter().map(|w| w.get_name().to_string()).collect();
+                out.push(hex(&format!("location={} sheets={}", loc, names.join("|"))));
+            }
+            out
+        }
         // ---- C05
         "font_roundtrip" => {
             // name size bold name size bold : two cells with these fonts, saved and reloaded
